@@ -5,8 +5,9 @@
   the theorems relate them to the executable model of votelib/vote.py (VotelibModel/Validate.lean),
   for every value of the grammar `Obj` and every configuration.
 
-  Where the code deviates from the property the full statement is kept in a comment, the provable part
-  is named `…_partial` and the deviation is proved on a concrete input (`…_witness`).
+  All statements are full strength: the four deviations found earlier (TypeError leaks of the score
+  validators, CandidateError escaping the filter, mutable set at a rank, KeyError of explicit checker
+  dictionaries) were repaired in /repo by e8da0bf, e8d1cd6, e5359c9, 84faad8 and the model follows.
 -/
 import VotelibProofs.Lemmas.Validate
 import Mathlib.Algebra.BigOperators.Group.List.Basic
@@ -53,24 +54,15 @@ def rankCands : Obj → List Obj
   | .fset xs => xs
   | x => [x]
 
-/-- the reading under which a mutable set is also taken as a shared rank (what the code does) -/
-def rankCandsAnySet : Obj → List Obj
-  | .fset xs => xs
-  | .mset xs => xs
-  | x => [x]
-
 /-- a ranked vote is a tuple of ranks; every candidate named is admitted (so a rank that is neither a
     frozenset nor a candidate is invalid), none is named twice, the total number named and the number at
     every rank (1-indexed) are within bounds -/
-def ValidRankedWith (cands : Obj → List Obj) (cfg : RankedCfg) : Obj → Prop
+def ValidRanked (cfg : RankedCfg) : Obj → Prop
   | .tuple ranks =>
-    (∀ c ∈ ranks.flatMap cands, Admits cfg.nom c) ∧ (ranks.flatMap cands).Nodup ∧
-    Within cfg.total (ranks.flatMap cands).length ∧
-    ∀ p ∈ ranks.zipIdx, Within (cfg.rank.get (p.2 + 1)) (cands p.1).length
+    (∀ c ∈ ranks.flatMap rankCands, Admits cfg.nom c) ∧ (ranks.flatMap rankCands).Nodup ∧
+    Within cfg.total (ranks.flatMap rankCands).length ∧
+    ∀ p ∈ ranks.zipIdx, Within (cfg.rank.get (p.2 + 1)) (rankCands p.1).length
   | _ => False
-
-def ValidRanked := ValidRankedWith rankCands
-def ValidRankedAnySet := ValidRankedWith rankCandsAnySet
 
 /-- the common rule of score votes: a frozenset of (candidate, score) pairs, candidates admitted, none
     scored twice, number of scorings within bounds, and — if a sum bound is configured for this number of
@@ -104,12 +96,8 @@ def ValidRange (cfg : RangeCfg) : Obj → Prop
 
 instance (cfg : ApprovalCfg) (v : Obj) : Decidable (ValidApproval cfg v) := by
   unfold ValidApproval; split <;> infer_instance
-instance (f : Obj → List Obj) (cfg : RankedCfg) (v : Obj) : Decidable (ValidRankedWith f cfg v) := by
-  unfold ValidRankedWith; split <;> infer_instance
-instance (cfg : RankedCfg) (v : Obj) : Decidable (ValidRanked cfg v) :=
-  inferInstanceAs (Decidable (ValidRankedWith rankCands cfg v))
-instance (cfg : RankedCfg) (v : Obj) : Decidable (ValidRankedAnySet cfg v) :=
-  inferInstanceAs (Decidable (ValidRankedWith rankCandsAnySet cfg v))
+instance (cfg : RankedCfg) (v : Obj) : Decidable (ValidRanked cfg v) := by
+  unfold ValidRanked; split <;> infer_instance
 instance (cfg : EnumCfg) (v : Obj) : Decidable (ValidEnumScore cfg v) := by
   unfold ValidEnumScore; split <;> infer_instance
 instance (cfg : RangeCfg) (v : Obj) : Decidable (ValidRange cfg v) := by
@@ -201,16 +189,16 @@ theorem validate_iff_valid_approval (cfg : ApprovalCfg) (v : Obj) (hwf : v.wf = 
     simp only [nominate_ok_iff_admits, Within, hnd, true_and]
   | _ => simp [validateApproval, ValidApproval]
 
-private theorem rankCandsAnySet_eq : rankCandsAnySet = rankMembers := by
+private theorem rankCands_eq : rankCands = rankMembers := by
   funext r; cases r <;> rfl
 
-/-- **Ranked votes**, for every value and configuration, under the reading that any set at a rank is a
-    shared rank. -/
-theorem validate_iff_valid_ranked_anyset (cfg : RankedCfg) (v : Obj) :
-    validateRanked cfg v = .ok () ↔ ValidRankedAnySet cfg v := by
+/-- **Ranked votes**, for every value and every configuration (a shared rank is a frozenset; a mutable
+    set, list or tuple at a rank is an inadmissible candidate). -/
+theorem validate_iff_valid_ranked (cfg : RankedCfg) (v : Obj) :
+    validateRanked cfg v = .ok () ↔ ValidRanked cfg v := by
   cases v with
   | tuple items =>
-    simp only [validateRanked, ValidRankedAnySet, ValidRankedWith, rankCandsAnySet_eq]
+    simp only [validateRanked, ValidRanked, rankCands_eq]
     have key := rankedLoop_ok_iff cfg items 0 0 []
     -- admission of everything named implies what the loop demands rank by rank
     have hitem : (∀ c ∈ items.flatMap rankMembers, Admits cfg.nom c) → ∀ r ∈ items, rankItemOk cfg.nom r := by
@@ -253,67 +241,21 @@ theorem validate_iff_valid_ranked_anyset (cfg : RankedCfg) (v : Obj) :
         ⟨fun p hp => check_ok_iff.2 (hR p hp), hitem hA, rfl, rfl⟩
       rw [hloop] at this
       cases this
-  | _ => simp [validateRanked, ValidRankedAnySet, ValidRankedWith]
+  | _ => simp [validateRanked, ValidRanked]
 
-/-- `isinstance(x, set)` -/
-def isMutableSet : Obj → Bool
-  | .mset _ => true
-  | _ => false
-
-/-- no mutable set at any rank -/
-def NoMutableSetRank : Obj → Prop
-  | .tuple ranks => ∀ r ∈ ranks, isMutableSet r = false
-  | _ => True
-
-instance (v : Obj) : Decidable (NoMutableSetRank v) := by
-  unfold NoMutableSetRank; split <;> infer_instance
-
-private theorem flatMap_congr' {f g : Obj → List Obj} {l : List Obj} (h : ∀ r ∈ l, f r = g r) :
-    l.flatMap f = l.flatMap g := by
-  induction l with
-  | nil => rfl
-  | cons x xs ih =>
-    simp only [List.flatMap_cons]
-    rw [h x List.mem_cons_self, ih (fun r hr => h r (List.mem_cons_of_mem _ hr))]
-
-theorem validRanked_iff_anyset (cfg : RankedCfg) (v : Obj) (h : NoMutableSetRank v) :
-    ValidRanked cfg v ↔ ValidRankedAnySet cfg v := by
-  cases v with
-  | tuple ranks =>
-    have he : ∀ r ∈ ranks, rankCands r = rankCandsAnySet r := by
-      intro r hr
-      have := h r hr
-      cases r <;> first | rfl | (simp [isMutableSet] at this)
-    simp only [ValidRanked, ValidRankedAnySet, ValidRankedWith, flatMap_congr' he]
-    constructor
-    · rintro ⟨h1, h2, h3, h4⟩
-      exact ⟨h1, h2, h3, fun p hp => by rw [← he p.1 (List.fst_mem_of_mem_zipIdx hp)]; exact h4 p hp⟩
-    · rintro ⟨h1, h2, h3, h4⟩
-      exact ⟨h1, h2, h3, fun p hp => by rw [he p.1 (List.fst_mem_of_mem_zipIdx hp)]; exact h4 p hp⟩
-  | _ => simp [ValidRanked, ValidRankedAnySet, ValidRankedWith]
-
-/- FULL STATEMENT (false of the code, see the witness below):
-     theorem validate_iff_valid_ranked (cfg) (v) : validateRanked cfg v = .ok () ↔ ValidRanked cfg v
-   RankedVoteValidator tests `isinstance(item, collections.abc.Set)`, so a mutable `set` at a rank is
-   taken as a shared rank although the ranked vote type allows frozensets only. -/
-
-/-- **Ranked votes**, strict reading, for every value without a mutable set at a rank. -/
-theorem validate_iff_valid_ranked_partial (cfg : RankedCfg) (v : Obj) (h : NoMutableSetRank v) :
-    validateRanked cfg v = .ok () ↔ ValidRanked cfg v := by
-  rw [validRanked_iff_anyset cfg v h]
-  exact validate_iff_valid_ranked_anyset cfg v
-
-/-- `RankedVoteValidator(rank_vote_count_bounds=(1,2)).validate(({'a','b'}, 'c'))` is accepted -/
-theorem validate_iff_valid_ranked_witness :
-    ¬ (validateRanked ⟨Bounds.none, .all ⟨some 1, some 2⟩, .basic true⟩ (.tuple [.mset [.str 0, .str 1], .str 2]) = .ok ()
-        ↔ ValidRanked ⟨Bounds.none, .all ⟨some 1, some 2⟩, .basic true⟩ (.tuple [.mset [.str 0, .str 1], .str 2])) := by
+/-- the ballot that was accepted before e5359c9: `({'a','b'}, 'c')` with a mutable set at a rank is invalid
+    and is rejected with a CandidateError -/
+theorem ranked_mutable_set_rank_rejected :
+    ¬ ValidRanked ⟨Bounds.none, .all ⟨some 1, some 2⟩, .basic true⟩ (.tuple [.mset [.str 0, .str 1], .str 2]) ∧
+    validateRanked ⟨Bounds.none, .all ⟨some 1, some 2⟩, .basic true⟩ (.tuple [.mset [.str 0, .str 1], .str 2])
+      = .error .candidateError := by
   decide +kernel
 
 /-- non-vacuity: a well-formed approval ballot on the upper bound, and a ranked ballot with a shared
     rank and no mutable set, are valid and accepted -/
 example : (Obj.fset [.str 0, .cand .blank 1]).wf = true ∧
     ValidApproval ⟨⟨some 1, some 2⟩, .basic true⟩ (.fset [.str 0, .cand .blank 1]) := by decide +kernel
-example : NoMutableSetRank (.tuple [.fset [.str 0, .str 1], .str 2]) ∧
+example :
     ValidRanked ⟨⟨some 3, some 3⟩, .byKey [(1, ⟨some 2, some 2⟩)], .basic true⟩
       (.tuple [.fset [.str 0, .str 1], .str 2]) ∧
     ¬ ValidRanked ⟨⟨some 3, some 3⟩, .byKey [(1, ⟨some 2, some 2⟩)], .basic true⟩
@@ -530,14 +472,13 @@ theorem rejections_are_library_errors_ranked (cfg : RankedCfg) (v : Obj) (hwf : 
           cases nominate_err hx
   | _ => simp [validateRanked] at h
 
-/-- a TypeError can only come out of the parent-class check through `sum()` over a non-numeric score
-    under an active sum bound -/
-theorem scoreBase_typeError (cfg : ScoreCfg) (v : Obj) (h : validateScoreBase cfg v = .error .typeError) :
-    ∃ items, v = .fset items ∧ (cfg.sum.get items.length).active = true ∧
-      ∃ s ∈ scoresOf items, s.isNum = false := by
+/-- the parent-class check of the score validators never leaks a TypeError (since e8da0bf a score that
+    cannot be summed is reported as a VoteValueError) -/
+theorem scoreBase_no_typeError (cfg : ScoreCfg) (v : Obj) :
+    validateScoreBase cfg v ≠ .error .typeError := by
+  intro h
   cases v with
   | fset items =>
-    refine ⟨items, rfl, ?_⟩
     simp only [validateScoreBase] at h
     rcases bind_err_iff.1 h with h1 | ⟨_, h1⟩
     · cases check_err h1
@@ -550,42 +491,21 @@ theorem scoreBase_typeError (cfg : ScoreCfg) (v : Obj) (h : validateScoreBase cf
         split at h2
         · cases h2
         · split at h2
-          · rename_i hact
-            refine ⟨hact, ?_⟩
-            cases hs : sumScores (scoresOf items) with
-            | none => exact sumScores_eq_none.1 hs
+          · cases hs : sumScores (scoresOf items) with
+            | none => rw [hs] at h2; cases h2
             | some s => rw [hs] at h2; cases check_err h2
           · cases h2
   | _ => simp [validateScoreBase] at h
 
-/-- no score is summed unless it is a number -/
-def ScoresNumericWhereSummed (cfg : ScoreCfg) : Obj → Prop
-  | .fset items => (cfg.sum.get items.length).active = true → ∀ s ∈ scoresOf items, s.isNum = true
-  | _ => True
-
-/-- no score is compared with a range bound unless it is a number -/
-def ScoresNumericWhereRanged (b : Bounds) : Obj → Prop
-  | .fset items => b.active = true → ∀ s ∈ scoresOf items, s.isNum = true
-  | _ => True
-
-/- FULL STATEMENT (false of the code, see the witness):
-     theorem rejections_are_library_errors_enumscore (cfg) (v) :
-       validateEnumScore cfg v ∈ {ok, error voteError, error candidateError}
-   `sum(scoring[1] for scoring in vote)` raises TypeError on a non-numeric score level. -/
-
-/-- **Enumerated score votes**: accepted, VoteError or CandidateError whenever no non-numeric score
-    meets an active sum bound. -/
-theorem rejections_are_library_errors_enumscore_partial (cfg : EnumCfg) (v : Obj)
-    (hnum : ScoresNumericWhereSummed cfg.base v) :
+/-- **Enumerated score votes**: accepted, VoteError or CandidateError (every value, every configuration). -/
+theorem rejections_are_library_errors_enumscore (cfg : EnumCfg) (v : Obj) :
     validateEnumScore cfg v = .ok () ∨ validateEnumScore cfg v = .error .voteError ∨
       validateEnumScore cfg v = .error .candidateError := by
   apply library_of_ne
   intro h
   unfold validateEnumScore at h
   rcases bind_err_iff.1 h with h1 | ⟨_, h1⟩
-  · obtain ⟨items, rfl, hact, s, hs, hn⟩ := scoreBase_typeError _ _ h1
-    rw [hnum hact s hs] at hn
-    cases hn
+  · exact scoreBase_no_typeError _ _ h1
   · cases v with
     | fset items =>
       simp only at h1
@@ -593,49 +513,39 @@ theorem rejections_are_library_errors_enumscore_partial (cfg : EnumCfg) (v : Obj
       split at hs <;> cases hs
     | _ => simp at h1
 
-/-- `EnumScoreVoteValidator(['x','y'], sum_bounds=(0,5)).validate(frozenset({('a','x')}))` raises TypeError -/
-theorem rejections_are_library_errors_enumscore_witness :
-    validateEnumScore ⟨⟨Bounds.none, .all ⟨some 0, some 5⟩, .basic true⟩, [.str 6, .str 7]⟩
-      (.fset [.tuple [.str 0, .str 6]]) = .error .typeError := by
-  decide +kernel
+private theorem checkObj_err {b : Bounds} {s : Obj} {e : Rej} (h : b.checkObj s = .error e) :
+    e = .voteError := by
+  cases s with
+  | num x => exact check_err (by simpa [Bounds.checkObj] using h)
+  | _ =>
+    simp only [Bounds.checkObj] at h
+    split at h <;> cases h
+    rfl
 
-/- FULL STATEMENT (false of the code, see the witness):
-     theorem rejections_are_library_errors_range (cfg) (v) :
-       validateRange cfg v ∈ {ok, error voteError, error candidateError}
-   `value >= self.min_value` raises TypeError on a non-numeric score. -/
-
-/-- **Range votes**: accepted, VoteError or CandidateError whenever no non-numeric score meets an
-    active sum or range bound. -/
-theorem rejections_are_library_errors_range_partial (cfg : RangeCfg) (v : Obj)
-    (hsum : ScoresNumericWhereSummed cfg.base v) (hrange : ScoresNumericWhereRanged cfg.range v) :
+/-- **Range votes**: accepted, VoteError or CandidateError (every value, every configuration). -/
+theorem rejections_are_library_errors_range (cfg : RangeCfg) (v : Obj) :
     validateRange cfg v = .ok () ∨ validateRange cfg v = .error .voteError ∨
       validateRange cfg v = .error .candidateError := by
   apply library_of_ne
   intro h
   unfold validateRange at h
   rcases bind_err_iff.1 h with h1 | ⟨_, h1⟩
-  · obtain ⟨items, rfl, hact, s, hs, hn⟩ := scoreBase_typeError _ _ h1
-    rw [hsum hact s hs] at hn
-    cases hn
+  · exact scoreBase_no_typeError _ _ h1
   · cases v with
     | fset items =>
       simp only at h1
-      obtain ⟨s, hs, he⟩ := forEach_err h1
-      cases s with
-      | num x => cases check_err (by simpa [Bounds.checkObj] using he)
-      | _ =>
-        simp only [Bounds.checkObj] at he
-        split at he
-        · rename_i hact
-          have := hrange hact _ hs
-          simp [Obj.isNum] at this
-        · cases he
+      obtain ⟨s, _, he⟩ := forEach_err h1
+      cases checkObj_err he
     | _ => simp at h1
 
-/-- `RangeVoteValidator(range=(0,5)).validate(frozenset({('a','x')}))` raises TypeError -/
-theorem rejections_are_library_errors_range_witness :
+/-- the two ballots that leaked a TypeError before e8da0bf are rejected with a VoteError:
+    `EnumScoreVoteValidator(['x','y'], sum_bounds=(0,5)).validate(frozenset({('a','x')}))` and
+    `RangeVoteValidator(range=(0,5)).validate(frozenset({('a','x')}))` -/
+theorem nonnumeric_score_under_bound_is_voteError :
+    validateEnumScore ⟨⟨Bounds.none, .all ⟨some 0, some 5⟩, .basic true⟩, [.str 6, .str 7]⟩
+      (.fset [.tuple [.str 0, .str 6]]) = .error .voteError ∧
     validateRange ⟨⟨Bounds.none, .all Bounds.none, .basic true⟩, ⟨some 0, some 5⟩⟩
-      (.fset [.tuple [.str 0, .str 6]]) = .error .typeError := by
+      (.fset [.tuple [.str 0, .str 6]]) = .error .voteError := by
   decide +kernel
 
 /-! ## the invalid-vote filter -/
@@ -651,80 +561,49 @@ def Valid : Validator → Obj → Prop
 instance (val : Validator) (v : Obj) : Decidable (Valid val v) := by
   cases val <;> unfold Valid <;> (unfold ValidSimple; infer_instance)
 
-private theorem noMset_of_hashable (v : Obj) (h : v.hashable = true) : NoMutableSetRank v := by
-  cases v with
-  | tuple ranks =>
-    intro r hr
-    have := hashableL_iff.1 (by simpa [Obj.hashable] using h) _ hr
-    cases r <;> first | rfl | (simp [Obj.hashable] at this)
-  | _ => trivial
-
-/-- for every hashable Python value (everything that can be a dictionary key) each of the five validators
-    accepts exactly the valid ballots -/
-theorem validate_iff_valid_key (val : Validator) (v : Obj) (hwf : v.wf = true) (hh : v.hashable = true) :
+/-- for every Python value each of the five validators accepts exactly the valid ballots -/
+theorem validate_iff_valid_key (val : Validator) (v : Obj) (hwf : v.wf = true) :
     val.validate v = .ok () ↔ Valid val v := by
   cases val with
   | simple nom => exact validate_iff_valid_simple nom v
   | approval cfg => exact validate_iff_valid_approval cfg v hwf
-  | ranked cfg => exact validate_iff_valid_ranked_partial cfg v (noMset_of_hashable v hh)
+  | ranked cfg => exact validate_iff_valid_ranked cfg v
   | enumScore cfg => exact validate_iff_valid_enumscore cfg v
   | range cfg => exact validate_iff_valid_range cfg v
+
+/-- and never leaks anything but a VoteError or a CandidateError -/
+theorem validator_no_typeError (val : Validator) (v : Obj) (hwf : v.wf = true) :
+    val.validate v ≠ .error .typeError := by
+  intro h
+  cases val with
+  | simple nom => rcases rejections_are_library_errors_simple nom v with h1 | h1 <;> (rw [Validator.validate, h1] at h; cases h)
+  | approval cfg =>
+    rcases rejections_are_library_errors_approval cfg v with h1 | h1 | h1 <;> (rw [Validator.validate, h1] at h; cases h)
+  | ranked cfg =>
+    rcases rejections_are_library_errors_ranked cfg v hwf with h1 | h1 | h1 <;> (rw [Validator.validate, h1] at h; cases h)
+  | enumScore cfg =>
+    rcases rejections_are_library_errors_enumscore cfg v with h1 | h1 | h1 <;> (rw [Validator.validate, h1] at h; cases h)
+  | range cfg =>
+    rcases rejections_are_library_errors_range cfg v with h1 | h1 | h1 <;> (rw [Validator.validate, h1] at h; cases h)
 
 /-- a dictionary of ballots: keys are real hashable Python values -/
 def KeysWF (votes : List (Obj × Rat)) : Prop := ∀ p ∈ votes, p.1.wf = true ∧ p.1.hashable = true
 
-/-- **Whenever the filter returns**, it has removed exactly the invalid ballots; the others keep their
-    order and their counts. -/
-theorem eliminator_ok_removes_exactly_rejected (val : Validator) (votes out : List (Obj × Rat))
-    (hk : KeysWF votes) (h : eliminate val.validate votes = .ok out) :
-    out = votes.filter (fun p => decide (Valid val p.1)) := by
-  rw [(eliminate_ok h).1]
+/-- **The invalid-vote filter removes exactly the rejected ballots and keeps the order and the counts of
+    all others**, for every dictionary of ballots and every validator. -/
+theorem eliminator_removes_exactly_rejected (val : Validator) (votes : List (Obj × Rat)) (hk : KeysWF votes) :
+    eliminate val.validate votes = .ok (votes.filter (fun p => decide (Valid val p.1))) := by
+  rw [eliminate_of_library_errors (fun p hp => validator_no_typeError val p.1 (hk p hp).1)]
+  congr 1
   apply List.filter_congr
   intro p hp
-  have := validate_iff_valid_key val p.1 (hk p hp).1 (hk p hp).2
-  simp only [this]
+  simp only [validate_iff_valid_key val p.1 (hk p hp).1]
 
-/- FULL STATEMENT (false of the code, see the witness):
-     theorem eliminator_removes_exactly_rejected (val) (votes) (hk : KeysWF votes) :
-       eliminate val.validate votes = .ok (votes.filter (fun p => Valid val p.1))
-   InvalidVoteEliminator.convert catches `VoteError` only: a ballot rejected with CandidateError (or
-   leaking a TypeError) makes the whole conversion raise. -/
-
-/-- **The filter removes exactly the rejected ballots and keeps all counts** whenever no ballot is
-    rejected with a CandidateError or leaks a TypeError. -/
-theorem eliminator_removes_exactly_rejected_partial (val : Validator) (votes : List (Obj × Rat))
-    (hk : KeysWF votes)
-    (hlib : ∀ p ∈ votes, val.validate p.1 ≠ .error .candidateError ∧ val.validate p.1 ≠ .error .typeError) :
-    eliminate val.validate votes = .ok (votes.filter (fun p => decide (Valid val p.1))) := by
-  have h : ∀ p ∈ votes, val.validate p.1 = .ok () ∨ val.validate p.1 = .error .voteError := by
-    intro p hp
-    rcases library_of_ne _ (hlib p hp).2 with h1 | h1 | h1
-    · exact Or.inl h1
-    · exact Or.inr h1
-    · exact absurd h1 (hlib p hp).1
-  have h2 := eliminate_of_library_errors h
-  rw [h2]
-  exact congrArg _ (eliminator_ok_removes_exactly_rejected val votes _ hk h2)
-
-/-- when the filter raises, the exception is the CandidateError / TypeError of one of the ballots -/
-theorem eliminator_raises_only_escaped_errors (val : Validator) (votes : List (Obj × Rat)) (e : Rej)
-    (h : eliminate val.validate votes = .error e) :
-    ∃ p ∈ votes, val.validate p.1 = .error e ∧ (e = .candidateError ∨ e = .typeError) := by
-  obtain ⟨p, hp, h1, h2⟩ := eliminate_err h
-  refine ⟨p, hp, h1, ?_⟩
-  cases e
-  · exact absurd rfl h2
-  · exact Or.inl rfl
-  · exact Or.inr rfl
-
-/-- `InvalidVoteEliminator(SimpleVoteValidator(PersonNominator())).convert({Person('I0'): 2, 'a': 1})`
-    raises CandidateError instead of returning `{Person('I0'): 2}` -/
-theorem eliminator_removes_exactly_rejected_witness :
-    eliminate (Validator.simple (.person true true)).validate [(.cand .personIndep 0, 2), (.str 0, 1)]
-        = .error .candidateError
-    ∧ [(Obj.cand .personIndep 0, (2 : Rat)), (.str 0, 1)].filter
-        (fun p => decide (Valid (Validator.simple (.person true true)) p.1)) = [(.cand .personIndep 0, 2)] := by
-  decide +kernel
+/-- in particular it never raises -/
+theorem eliminator_never_raises (val : Validator) (votes : List (Obj × Rat)) (hk : KeysWF votes) (e : Rej) :
+    eliminate val.validate votes ≠ .error e := by
+  rw [eliminator_removes_exactly_rejected val votes hk]
+  intro h; cases h
 
 /-- the kept ballots are a sub-dictionary of the input: same order, same counts -/
 theorem eliminator_keeps_counts (val : Validator) (votes out : List (Obj × Rat))
@@ -732,35 +611,21 @@ theorem eliminator_keeps_counts (val : Validator) (votes out : List (Obj × Rat)
   rw [(eliminate_ok h).1]
   exact List.filter_sublist
 
-/-- a consequence of the filter catching `VoteError` only: wrapped around a SimpleVoteValidator (whose only
-    rejection is a CandidateError) it can never remove anything — it returns the input or raises -/
-theorem eliminator_simple_never_removes (nom : Nominator) (votes out : List (Obj × Rat))
-    (h : eliminate (Validator.simple nom).validate votes = .ok out) : out = votes := by
-  obtain ⟨h1, h2⟩ := eliminate_ok h
-  rw [h1, List.filter_eq_self]
-  intro p hp
-  rcases h2 p hp with h3 | h3
-  · exact decide_eq_true h3
-  · rcases rejections_are_library_errors_simple nom p.1 with h4 | h4
-    · exact decide_eq_true (show (Validator.simple nom).validate p.1 = .ok () from h4)
-    · simp only [Validator.validate] at h3
-      rw [h3] at h4
-      cases h4
-
-/-- non-vacuity of the eliminator theorems: a dictionary of three ranked ballots (keys well-formed and
-    hashable, none rejected with a CandidateError), of which exactly the invalid one is removed -/
+/-- non-vacuity: a dictionary of ranked ballots of which the duplicate one (VoteError) and the one naming a
+    non-candidate (CandidateError) are removed; and the dictionary on which the filter raised before e8d1cd6 -/
 example :
-    KeysWF [(.tuple [.str 0, .str 1], 3), (.tuple [.str 0, .str 0], 5), (.tuple [.fset [.str 2, .str 3]], 7/2)] ∧
-    (∀ p ∈ [(Obj.tuple [.str 0, .str 1], (3 : Rat)), (.tuple [.str 0, .str 0], 5), (.tuple [.fset [.str 2, .str 3]], 7/2)],
-      (Validator.ranked ⟨Bounds.none, .all ⟨some 1, some 2⟩, .basic true⟩).validate p.1 ≠ .error .candidateError ∧
-      (Validator.ranked ⟨Bounds.none, .all ⟨some 1, some 2⟩, .basic true⟩).validate p.1 ≠ .error .typeError) ∧
+    KeysWF [(.tuple [.str 0, .str 1], 3), (.tuple [.str 0, .str 0], 5), (.tuple [.num 1], 2),
+            (.tuple [.fset [.str 2, .str 3]], 7/2)] ∧
     eliminate (Validator.ranked ⟨Bounds.none, .all ⟨some 1, some 2⟩, .basic true⟩).validate
-      [(.tuple [.str 0, .str 1], 3), (.tuple [.str 0, .str 0], 5), (.tuple [.fset [.str 2, .str 3]], 7/2)]
-      = .ok [(.tuple [.str 0, .str 1], 3), (.tuple [.fset [.str 2, .str 3]], 7/2)] := by
+      [(.tuple [.str 0, .str 1], 3), (.tuple [.str 0, .str 0], 5), (.tuple [.num 1], 2),
+       (.tuple [.fset [.str 2, .str 3]], 7/2)]
+      = .ok [(.tuple [.str 0, .str 1], 3), (.tuple [.fset [.str 2, .str 3]], 7/2)] ∧
+    eliminate (Validator.simple (.person true true)).validate [(.cand .personIndep 0, 2), (.str 0, 1)]
+      = .ok [(.cand .personIndep 0, 2)] := by
   unfold KeysWF
   decide +kernel
 
-/-! ## which error class comes out, and exactly when a TypeError leaks -/
+/-! ## which error class comes out -/
 
 /-- approval votes: CandidateError iff a frozenset with a member that is not admitted (the nominator is
     consulted before the count) -/
@@ -806,75 +671,6 @@ theorem approval_voteError_iff (cfg : ApprovalCfg) (v : Obj) :
       · rw [h, check_err h]
   | _ => simp [validateApproval]
 
-/-- **exactly when** the parent-class check of the score validators leaks a TypeError: the ballot passes
-    every earlier check (count, pair shape, nominator, duplicates), a sum bound is configured for this number
-    of scorings, and some score is not a number -/
-theorem scoreBase_typeError_iff (cfg : ScoreCfg) (v : Obj) :
-    validateScoreBase cfg v = .error .typeError ↔
-      ∃ items, v = .fset items ∧ Within cfg.nScorings items.length ∧
-        (∀ it ∈ items, it.asPair.isSome = true) ∧ (∀ c ∈ candsOf items, Admits cfg.nom c) ∧
-        (candsOf items).Nodup ∧ (cfg.sum.get items.length).active = true ∧
-        ∃ s ∈ scoresOf items, s.isNum = false := by
-  constructor
-  · intro h
-    obtain ⟨items, rfl, hact, hs⟩ := scoreBase_typeError cfg v h
-    refine ⟨items, rfl, ?_⟩
-    -- the same ballot under the configuration without sum bounds is accepted
-    have hok : validateScoreBase ⟨cfg.nScorings, .all Bounds.none, cfg.nom⟩ (.fset items) = .ok () := by
-      simp only [validateScoreBase] at h ⊢
-      rcases bind_err_iff.1 h with h1 | ⟨h0, h1⟩
-      · cases check_err h1
-      · rcases bind_err_iff.1 h1 with h2 | ⟨h00, h2⟩
-        · rcases scoreItems_err h2 with h3 | h3 <;> cases h3
-        · rw [bind_ok_iff, bind_ok_iff]
-          refine ⟨h0, h00, ?_⟩
-          split at h2
-          · rename_i hh; simp only [hh, if_true]; exact absurd h2 (by
-              have hA := (scoreItems_ok_iff_spec.1 h00).2
-              have : hashableL (candsOf items) = true :=
-                hashableL_iff.2 (fun c hc => nominate_ok_hashable ((nominate_ok_iff_admits _ _).2 (hA c hc)))
-              simp [this] at hh)
-          · rename_i hh
-            simp only [hh]
-            split at h2
-            · cases h2
-            · rename_i hd
-              simp [hd, BoundMap.get, Bounds.active, Bounds.none]
-    obtain ⟨hP, hA, hnd, hN, _⟩ := (validateScoreBase_iff _ items).1 hok
-    exact ⟨hN, hP, hA, hnd, hact, hs⟩
-  · rintro ⟨items, rfl, hN, hP, hA, hnd, hact, s, hs, hn⟩
-    have hh : hashableL (candsOf items) = true :=
-      hashableL_iff.2 (fun c hc => nominate_ok_hashable ((nominate_ok_iff_admits _ _).2 (hA c hc)))
-    have hok : validateScoreBase ⟨cfg.nScorings, .all Bounds.none, cfg.nom⟩ (.fset items) = .ok () :=
-      (validateScoreBase_iff _ items).2 ⟨hP, hA, hnd, hN, fun h => by simp [BoundMap.get, Bounds.active, Bounds.none] at h⟩
-    simp only [validateScoreBase] at hok ⊢
-    rw [bind_ok_iff, bind_ok_iff] at hok
-    obtain ⟨h0, h00, h2⟩ := hok
-    rw [bind_err_iff]; right; refine ⟨h0, ?_⟩
-    rw [bind_err_iff]; right; refine ⟨h00, ?_⟩
-    simp only [hh, Bool.not_true, Bool.false_eq_true, if_false] at h2 ⊢
-    split at h2
-    · cases h2
-    · rename_i hd
-      simp only [hd, if_false, hact, if_true]
-      rw [sumScores_eq_none.2 ⟨s, hs, hn⟩]
-
-/-- the enumerated-score validator leaks a TypeError exactly when its parent-class check does -/
-theorem enumscore_typeError_iff (cfg : EnumCfg) (v : Obj) :
-    validateEnumScore cfg v = .error .typeError ↔ validateScoreBase cfg.base v = .error .typeError := by
-  unfold validateEnumScore
-  rw [bind_err_iff]
-  constructor
-  · rintro (h | ⟨_, h⟩)
-    · exact h
-    · cases v with
-      | fset items =>
-        simp only at h
-        obtain ⟨s, _, hs⟩ := forEach_err h
-        split at hs <;> cases hs
-      | _ => simp at h
-  · exact Or.inl
-
 /-! ## acceptance does not depend on the iteration order of a set -/
 
 theorem valid_approval_perm (cfg : ApprovalCfg) {xs ys : List Obj} (h : xs.Perm ys) :
@@ -915,7 +711,7 @@ example :
       (.fset [.tuple [.num 1, .num 1], .str 0]) = .error .candidateError := by decide +kernel
 
 /-- non-vacuity of the score theorems: a valid range ballot on both boundaries of range and sum, an
-    invalid one (sum one half above), and the hypotheses of the `_partial` theorems -/
+    invalid one (sum one half above) -/
 example :
     ValidRange ⟨⟨⟨some 2, some 2⟩, .byKey [(2, ⟨some 0, some (7/2)⟩)], .basic true⟩, ⟨some 0, some 3⟩⟩
       (.fset [.tuple [.str 0, .num 3], .tuple [.str 1, .num (1/2)]]) ∧
@@ -924,50 +720,10 @@ example :
     ValidEnumScore ⟨⟨Bounds.none, .all Bounds.none, .party false true⟩, [.str 8, .str 9]⟩
       (.fset [.tuple [.cand .party 0, .str 8], .tuple [.cand .blank 0, .str 9]]) := by decide +kernel
 
-instance (cfg : ScoreCfg) (v : Obj) : Decidable (ScoresNumericWhereSummed cfg v) := by
-  unfold ScoresNumericWhereSummed; split <;> infer_instance
-instance (b : Bounds) (v : Obj) : Decidable (ScoresNumericWhereRanged b v) := by
-  unfold ScoresNumericWhereRanged; split <;> infer_instance
-
+/-- non-vacuity of `v.wf`: real nested values are well-formed; a frozenset "holding" a list is not a value -/
 example :
-    ScoresNumericWhereSummed ⟨Bounds.none, .all ⟨some 0, some 5⟩, .basic true⟩
-      (.fset [.tuple [.str 0, .num 3], .tuple [.str 1, .num 4]]) ∧
-    ScoresNumericWhereRanged ⟨some 0, some 3⟩ (.fset [.tuple [.str 0, .num 3], .tuple [.str 1, .num 4]]) ∧
-    validateRange ⟨⟨Bounds.none, .all ⟨some 0, some 5⟩, .basic true⟩, ⟨some 0, some 3⟩⟩
-      (.fset [.tuple [.str 0, .num 3], .tuple [.str 1, .num 4]]) = .error .voteError ∧
-    (Obj.tuple [.fset [.str 0, .list [.str 1]]]).wf = false ∧
-    (Obj.tuple [.fset [.str 0, .tuple [.str 1]], .mset [.str 2], .list [.str 3]]).wf = true := by decide +kernel
-
-/-- **exactly when** the range validator leaks a TypeError: its parent-class check does, or that check
-    passes, a score range is configured, and in iteration order the first score that is not a number
-    within the range is not a number at all -/
-theorem range_typeError_iff (cfg : RangeCfg) (v : Obj) :
-    validateRange cfg v = .error .typeError ↔
-      validateScoreBase cfg.base v = .error .typeError ∨
-      ∃ items, v = .fset items ∧ ValidScoreBase cfg.base items ∧ cfg.range.active = true ∧
-        ∃ pre s post, scoresOf items = pre ++ s :: post ∧ (∀ y ∈ pre, ScoreInRange cfg.range y) ∧
-          s.isNum = false := by
-  unfold validateRange
-  rw [bind_err_iff]
-  apply or_congr Iff.rfl
-  cases v with
-  | fset items =>
-    simp only [validateScoreBase_iff, Obj.fset.injEq, exists_eq_left', forEach_err_iff, checkObj_ok_iff]
-    constructor
-    · rintro ⟨hb, pre, s, post, he, h1, h2⟩
-      refine ⟨hb, ?_, pre, s, post, he, h1, ?_⟩
-      · cases s with
-        | num x => cases check_err (by simpa [Bounds.checkObj] using h2)
-        | _ => simp only [Bounds.checkObj] at h2; split at h2 <;> first | assumption | cases h2
-      · cases s with
-        | num x => cases check_err (by simpa [Bounds.checkObj] using h2)
-        | _ => rfl
-    · rintro ⟨hb, hact, pre, s, post, he, h1, h2⟩
-      refine ⟨hb, pre, s, post, he, h1, ?_⟩
-      cases s with
-      | num x => simp [Obj.isNum] at h2
-      | _ => simp [Bounds.checkObj, hact]
-  | _ => simp [validateScoreBase]
+    (Obj.tuple [.fset [.str 0, .tuple [.str 1]], .mset [.str 2], .list [.str 3]]).wf = true ∧
+    (Obj.tuple [.fset [.str 0, .list [.str 1]]]).wf = false := by decide +kernel
 
 /-! ### ranked votes: the order inside a shared rank is immaterial -/
 
@@ -975,17 +731,15 @@ theorem range_typeError_iff (cfg : RangeCfg) (v : Obj) :
 inductive RankPerm : Obj → Obj → Prop
   | refl (r : Obj) : RankPerm r r
   | fset {xs ys : List Obj} : xs.Perm ys → RankPerm (.fset xs) (.fset ys)
-  | mset {xs ys : List Obj} : xs.Perm ys → RankPerm (.mset xs) (.mset ys)
 
 private theorem rankPerm_cands {r r' : Obj} (h : RankPerm r r') :
-    (rankCandsAnySet r).Perm (rankCandsAnySet r') := by
+    (rankCands r).Perm (rankCands r') := by
   cases h with
   | refl => exact List.Perm.refl _
   | fset h => exact h
-  | mset h => exact h
 
 private theorem rankPerm_flat {rs rs' : List Obj} (h : List.Forall₂ RankPerm rs rs') :
-    (rs.flatMap rankCandsAnySet).Perm (rs'.flatMap rankCandsAnySet) := by
+    (rs.flatMap rankCands).Perm (rs'.flatMap rankCands) := by
   induction h with
   | nil => exact List.Perm.refl _
   | cons h _ ih =>
@@ -994,25 +748,25 @@ private theorem rankPerm_flat {rs rs' : List Obj} (h : List.Forall₂ RankPerm r
 
 private theorem rankPerm_ranks {rs rs' : List Obj} (h : List.Forall₂ RankPerm rs rs')
     (P : Nat → Nat → Prop) (i : Nat) :
-    (∀ p ∈ rs.zipIdx i, P p.2 (rankCandsAnySet p.1).length) ↔
-      (∀ p ∈ rs'.zipIdx i, P p.2 (rankCandsAnySet p.1).length) := by
+    (∀ p ∈ rs.zipIdx i, P p.2 (rankCands p.1).length) ↔
+      (∀ p ∈ rs'.zipIdx i, P p.2 (rankCands p.1).length) := by
   induction h generalizing i with
   | nil => simp
   | cons h _ ih =>
     simp only [List.zipIdx_cons, List.mem_cons, forall_eq_or_imp, (rankPerm_cands h).length_eq, ih (i + 1)]
 
 theorem valid_ranked_perm (cfg : RankedCfg) {rs rs' : List Obj} (h : List.Forall₂ RankPerm rs rs') :
-    ValidRankedAnySet cfg (.tuple rs) ↔ ValidRankedAnySet cfg (.tuple rs') := by
+    ValidRanked cfg (.tuple rs) ↔ ValidRanked cfg (.tuple rs') := by
   have hf := rankPerm_flat h
   have hr := rankPerm_ranks h (fun i n => Within (cfg.rank.get (i + 1)) (n : Nat)) 0
-  simp only [ValidRankedAnySet, ValidRankedWith, hf.mem_iff, hf.nodup_iff, hf.length_eq]
+  simp only [ValidRanked, hf.mem_iff, hf.nodup_iff, hf.length_eq]
   exact and_congr Iff.rfl (and_congr Iff.rfl (and_congr Iff.rfl hr))
 
 /-- the verdict on a ranked ballot does not depend on the iteration order of its shared ranks -/
 theorem accept_ranked_order_independent (cfg : RankedCfg) {rs rs' : List Obj}
     (h : List.Forall₂ RankPerm rs rs') :
     validateRanked cfg (.tuple rs) = .ok () ↔ validateRanked cfg (.tuple rs') = .ok () := by
-  rw [validate_iff_valid_ranked_anyset, validate_iff_valid_ranked_anyset, valid_ranked_perm cfg h]
+  rw [validate_iff_valid_ranked, validate_iff_valid_ranked, valid_ranked_perm cfg h]
 
 /-! ## sanity of the rule itself -/
 
@@ -1021,15 +775,13 @@ theorem accept_ranked_order_independent (cfg : RankedCfg) {rs rs' : List Obj}
 theorem ranked_default_names (names : List Nat) :
     validateRanked ⟨Bounds.none, .all ⟨some 1, some 1⟩, .basic true⟩ (.tuple (names.map .str)) = .ok ()
       ↔ names.Nodup := by
-  rw [validate_iff_valid_ranked_partial _ _ (by
-    simp only [NoMutableSetRank, List.mem_map]
-    rintro r ⟨n, _, rfl⟩; rfl)]
+  rw [validate_iff_valid_ranked]
   have hflat : (names.map Obj.str).flatMap rankCands = names.map Obj.str := by
     induction names with
     | nil => rfl
     | cons n ns ih => simp only [List.map_cons, List.flatMap_cons, rankCands, ih, List.singleton_append]
   have hinj : Function.Injective Obj.str := fun a b h => by cases h; rfl
-  simp only [ValidRanked, ValidRankedWith, hflat, List.nodup_map_iff hinj]
+  simp only [ValidRanked, hflat, List.nodup_map_iff hinj]
   constructor
   · exact fun h => h.2.1
   · intro h
